@@ -42,7 +42,7 @@ BUDGET = {
 REQUIRED_PROBES = ["not_done_polls", "error_history", "response_history", "unimported_type", "fully_qualified_name",
                    "relative_name", "empty_response", "raw_operation", "poll_fault_retried", "poll_fault_surfaced",
                    "initial_done", "async_future", "metadata_checked", "long_poll_over_60s", "concurrent_futures", "rest_future",
-                   "rest_polls", "rest_poll_rule_with_additional_bindings"]
+                   "rest_polls", "rest_poll_rule_with_additional_bindings", "caller_cancelled_while_polling"]
 ASSUMPTIONS = ["operation_info names that are relative AND nested (Outer.Inner) are excluded (DESIGN.md section 3)",
                "api-core's default polling policy (1 s x1.5 up to 20 s, 900 s budget) is the reference for liveness"]
 
@@ -114,6 +114,9 @@ def gen_scenarios(spec, rng, n):
             actors[j % nact]["ops"].append(op)
         sc = {"client": client, "actors": [a for a in actors if a["ops"]],
               "jitter_default": rng.choice([1.0, 1.0, 0.5, 0.75, 0.25])}
+        if client == "async" and len(sc["actors"]) > 1 and rng.random() < 0.25:
+            # fault: one caller's task is cancelled while its future (or another caller's) is polling
+            sc["cancels"] = [{"actor": rng.randrange(len(sc["actors"])), "at": rng.choice([0.0, 0.5, 1.5, 4.0, 12.0, 40.0])}]
         if client == "rest" and rng.random() < 0.4:
             # a scheme-less host with an explicit url_scheme (the documented way to reach a local/test server)
             sc["url_scheme"] = "http"
@@ -277,6 +280,8 @@ def judge_op(spec, codec, scenario, op, evs, probes):
     rest = scenario["client"] == "rest"
     if rest:
         _bump(probes, "rest_future")
+    if not attempts and any(e["k"] == "cancelled" for e in evs):
+        return []           # the caller was cancelled before anything was sent
     if not attempts or (not rest and attempts[0]["path"] != path):
         return V("initial_call", f"first attempt went to {attempts[0]['path'] if attempts else None}")
     ch0 = attempts[0]["ch"]
@@ -289,6 +294,8 @@ def judge_op(spec, codec, scenario, op, evs, probes):
     if outcome is None:
         return V("no_outcome", "the LRO call neither returned nor raised")
 
+    if op.get("raw") and outcome["k"] == "cancelled":
+        return []
     if op.get("raw"):
         _bump(probes, "raw_operation")
         if polls:
@@ -352,7 +359,11 @@ def judge_op(spec, codec, scenario, op, evs, probes):
             return V("poll_after_done", "GetOperation was called after a done operation had been delivered")
         if surfaced:
             return V("poll_after_error", f"GetOperation was called after non-retryable {surfaced}")
+        if outcome["k"] == "cancelled" and a["t"] > outcome["t"] + 1e-6:
+            return V("poll_after_cancel", f"GetOperation was called at t={a['t']:.6f}, after the caller's task had been cancelled at t={outcome['t']:.6f}")
         sv = servers.get(a["n"])
+        if sv is None and outcome["k"] == "cancelled":
+            break           # cancelled while this poll was in flight
         if sv.get("code"):
             t_last_fault = a["t"]
             if sv["code"] in POLL_ABSORBED[scenario["client"]]:
@@ -395,6 +406,7 @@ def judge_op(spec, codec, scenario, op, evs, probes):
 
     # ---- outcome
     if outcome["k"] == "cancelled":
+        _bump(probes, "caller_cancelled_while_polling" if polls else "caller_cancelled")
         return []
     if surfaced:
         exp = engine.CODE_TO_EXC[surfaced].__name__
